@@ -260,6 +260,35 @@ let run_case op t =
        let lt = dd_lt_m p.a p.b x y and gt = dd_lt_m p.b p.a y x and eq = dd_eq_m p.a p.b x y in
        (legs ([ fb (dd_plus_m p.a p.b x y); fb (dd_minus_m p.a p.b x y); fb (dd_div_m p.a p.b x y) ]
               @ List.map tokb_of [ eq; nb eq; lt; nb gt; gt; nb lt ]), "na")
+     | "d_pm" ->
+       (* + - and the six comparisons of two double durations; spec for whole-valued counts inside [farith_ok]
+          (C12_float_arith_guarded): the exact sum / difference as a double, the exact order *)
+       let x = dec64 (next_z t) in
+       let y = dec64 (next_z t) in
+       let fb = function Val r -> str_of_z (enc64 r) | Ub _ -> "ub" | IllFormed -> "illformed" | Fuel -> "fuel" in
+       let nb = function Val b -> Val (not b) | o -> o in
+       let lt = dd_lt_m p.a p.b x y and gt = dd_lt_m p.b p.a y x and eq = dd_eq_m p.a p.b x y in
+       (legs ([ fb (dd_plus_m p.a p.b x y); fb (dd_minus_m p.a p.b x y) ]
+              @ List.map tokb_of [ eq; nb eq; lt; nb gt; gt; nb lt ]),
+        match d_int_of x, d_int_of y with
+        | Some c1, Some c2 when pok && farith_ok n1 d1 n2 d2 c1 c2 ->
+          let e = eq_spec n1 d1 n2 d2 c1 c2 and l = lt_spec n1 d1 n2 d2 c1 c2 and g = lt_spec n2 d2 n1 d1 c2 c1 in
+          legs ([ str_of_z (enc64 (d_of_Z (f p.plus_s c1 c2))); str_of_z (enc64 (d_of_Z (f p.minus_s c1 c2))) ]
+                @ List.map b2s [ e; not e; l; not g; g; not l ])
+        | _, _ -> "na")
+     | "d_mpm" ->
+       let c = next_z t in
+       let y = dec64 (next_z t) in
+       let fb = function Val r -> str_of_z (enc64 r) | Ub _ -> "ub" | IllFormed -> "illformed" | Fuel -> "fuel" in
+       let nb = function Val b -> Val (not b) | o -> o in
+       let lt = id_lt_m p.a p.b c y and eq = id_eq_m p.a p.b c y in
+       (legs ([ fb (id_plus_m p.a p.b c y); fb (id_minus_m p.a p.b c y) ] @ List.map tokb_of [ eq; nb eq; lt; nb lt ]),
+        match d_int_of y with
+        | Some c2 when pok && farith_ok n1 d1 n2 d2 c c2 ->
+          let e = eq_spec n1 d1 n2 d2 c c2 and l = lt_spec n1 d1 n2 d2 c c2 in
+          legs ([ str_of_z (enc64 (d_of_Z (f p.plus_s c c2))); str_of_z (enc64 (d_of_Z (f p.minus_s c c2))) ]
+                @ List.map b2s [ e; not e; l; not l ])
+        | _ -> "na")
      | "d_mixed" ->
        (* duration<int64, P1>{c} with duration<double, P2>{y} *)
        let c = next_z t in
@@ -427,7 +456,13 @@ let run_ucase op t =
         if Z.ltb r1 Z0 then "illformed"
         else if pok && uabs_ok r1 c then okz (abs_spec c) else "na")
      | "u_limits" ->
-       (legs (List.map sz [ Z0; rmin r1; rmax r1; rmin r1; rmax r1 ]), "na")
+       (* [time.traits.duration.values]: zero() = Rep(0), min() = numeric_limits<Rep>::lowest(), max() = ...::max();
+          USpec.ufits is exactly "lowest() <= x <= max()" *)
+       let lo = if Z.ltb r1 Z0 then Z0 else Z.opp (Z.pow (zi 2) (Z.sub r1 (zi 1))) in
+       let hi = if Z.ltb r1 Z0 then Z.sub (Z.pow (zi 2) (Z.opp r1)) (zi 1) else Z.sub (Z.pow (zi 2) (Z.sub r1 (zi 1))) (zi 1) in
+       (legs (List.map sz [ Z0; rmin r1; rmax r1; rmin r1; rmax r1 ]),
+        if urep_ok r1 && ufits r1 lo && ufits r1 hi && not (ufits r1 (Z.sub lo (zi 1))) && not (ufits r1 (Z.add hi (zi 1)))
+        then legs (List.map sz [ Z0; lo; hi; lo; hi ]) else "na")
      | _ -> raise Not_found)
 
 
@@ -474,13 +509,23 @@ let run_utable op =
           Some (legs [ str_of_z t.pn; str_of_z t.pd; str_of_z t.rw; cv a; cv b ], "na")
         | _ -> Some ("illformed", "na"))
      | _, _ -> Some ("illformed", "na"))
+  | "u_spaceship" ->
+    (* known finding KF-C12-no-spaceship: the library defines no operator<=> (the model mirrors that); the standard
+       requires it for durations and time_points *)
+    Some ("ok 0 0", "ok 1 1")
   | "u_fl" ->
     (* float / long double representations: the harness compares every result with std::chrono; not modelled *)
     Some ("ok 14 14", "na")
   | _ -> None
 
 let run_case op t =
-  if String.length op > 2 && String.sub op 0 2 = "u_" then
+  if String.length op > 4 && String.sub op 0 4 = "uub_" then begin
+    (* an input with undefined behaviour, executed by the UBSan variant only: one trap ends the whole case *)
+    let (m, _) = run_ucase ("u_" ^ String.sub op 4 (String.length op - 4)) t in
+    let has_ub = List.mem "ub" (String.split_on_char ' ' m) in
+    ((if has_ub then ub_leg else m), "na")
+  end
+  else if String.length op > 2 && String.sub op 0 2 = "u_" then
     (match run_utable op with Some r -> r | None -> run_ucase op t)
   else run_case op t
 
